@@ -483,8 +483,11 @@ ElemNumber::getCountMatchPattern(
         {
             const GetCachedString   theMatchPatternString(executionContext);
 
+            // The target is a literal, so it has to be quoted...
             theMatchPatternString.get() = s_piString;
+            theMatchPatternString.get().append(1, XalanUnicode::charApostrophe);
             theMatchPatternString.get().append(contextNode->getNodeName());
+            theMatchPatternString.get().append(1, XalanUnicode::charApostrophe);
             theMatchPatternString.get().append(1, XalanUnicode::charRightParenthesis);
 
             countMatchPattern = executionContext.createMatchPattern(
@@ -1778,7 +1781,7 @@ static XalanDOMString   s_staticSlashString(XalanMemMgrs::getDummyMemMgr());
 
 const XalanDOMChar      ElemNumber::s_atString[] =
 {
-    XalanUnicode::charAmpersand,
+    XalanUnicode::charCommercialAt,
     0
 };
 
